@@ -219,7 +219,13 @@ def run(ctx):
                 ctx.report("C01-truthiness", "as_boolean/%s%s" % (vn, "" if pl is absint.UNKNOWN else "(%s)" % pl),
                            "as_boolean(%s %s) = %s, expected %s" % (vn, pl, res, want), where_of(ab))
     ncond = 0
-    for f in (ee, ete, fb.find(INTERP + "eval_owned_tail_expression")):
+    live = fb.reachable_from([ap.name, ee.name])
+    for f in (ee, ete, fb.find(INTERP + "eval_owned_tail_expression", required=False)):
+        if f is None:
+            continue
+        if f.name not in live:
+            ctx.note("%s is not reachable from the evaluator (dead code on this tree): not analysed" % f.name)
+            continue
         ncond += conditional_rule(ctx, fb, f, vidx, ab.name, ee.name)
     if ncond < 2:
         ctx.report("C01-truthiness", "floor", "expected the conditional evaluators (found %d)" % ncond)
